@@ -1,6 +1,7 @@
 #!/bin/bash
 # usage: tools/confirm.sh <worktree> [nocheck] : confirm a sub-agent's seeded change in its (built, in-tree configured) worktree.
 #   the change is the uncommitted diff of tracked files; demo.c / demo.cc sits in the worktree root.
+#   (never git stash: the stash is shared by all worktrees of a repository)
 #   1. build with the change, demo must exit non-zero   2. stash, rebuild, demo must exit 0   3. pop, rebuild, make check must pass
 set -u
 wt=$1; nocheck=${2:-}
@@ -10,14 +11,20 @@ if [ -f demo.cc ]; then src=demo.cc; cc="g++ -O1 -I. demo.cc .libs/libmpirxx.a .
 [ -f $src ] || { echo "CONFIRM: no demo"; exit 2; }
 git diff --quiet && { echo "CONFIRM: no change in tracked files"; exit 2; }
 git diff > .seed.patch
+# no header dependency tracking in this build: a changed header must force its users to recompile
+touchusers () { for h in $(grep '^+++ b/' .seed.patch | sed 's/^+++ b\///' | grep '\.h$\|\.in$'); do
+    case $h in */*) touch $(dirname $h)/*.c 2>/dev/null;; *) find . -name '*.c' -o -name '*.cc' | grep -v '^./tests' | xargs touch;; esac; done; }
+touchusers
 make -j$J >/dev/null 2>.confirm.err || { echo "CONFIRM: build with change failed"; tail -5 .confirm.err; exit 2; }
 $cc -o .demo_with 2>>.confirm.err || { echo "CONFIRM: demo does not compile"; tail -5 .confirm.err; exit 2; }
 timeout 300 ./.demo_with > .demo_with.out 2>&1; w=$?
-git stash -q || exit 2
+git apply -R .seed.patch || { echo 'CONFIRM: cannot reverse the change'; exit 2; }
+touchusers
 make -j$J >/dev/null 2>>.confirm.err; b=$?
 $cc -o .demo_without 2>>.confirm.err
 timeout 300 ./.demo_without > .demo_without.out 2>&1; wo=$?
-git stash pop -q || { echo "CONFIRM: stash pop failed"; exit 2; }
+git apply .seed.patch || { echo 'CONFIRM: cannot re-apply the change'; exit 2; }
+touchusers
 [ $b = 0 ] || { echo "CONFIRM: build without change failed"; exit 2; }
 echo "CONFIRM: demo with change exit=$w ; without change exit=$wo"
 [ $w != 0 ] && [ $wo = 0 ] || { echo "CONFIRM: FAILED (demo does not discriminate)"; exit 1; }
